@@ -119,6 +119,8 @@ class ExprMixin:
         raise NotFormed(f'name {i} is not bound')
 
     def resolve_global(self, i):
+        if i in getattr(self.reg, 'constants', {}):
+            return self.reg.constants[i]                  # a global name bound to a value term by the contract module
         if i in BUILTIN_CLASSES:
             return Static('class:' + i)
         if i in ('len', 'isinstance', 'type', 'abs', 'max', 'min', 'sum', 'any', 'all', 'repr', 'range', 'enumerate',
@@ -194,6 +196,9 @@ class ExprMixin:
             facts.append(T.dhas(D, kk))
         facts.append(T.dcount(D) >= (1 if pairs else 0))
         facts.append(T.dcount(D) <= len(pairs))
+        if not pairs:
+            for lem in getattr(self.reg, 'dict_lemmas', ()):
+                facts += lem('new', D, None, None)
         return st.add(*facts), D
 
     def e_Dict(self, n, st):
@@ -815,6 +820,8 @@ class ExprMixin:
             raise NotFormed(f'attribute {attr} of {o!r}')
         if ('method:' + attr) in self.reg.externals:
             return [(st, BoundBuiltin(o, attr))]         # an assumed (external) contract takes precedence over source
+        if ('attr:' + attr) in self.reg.externals and attr != '__class__':
+            return self.reg.externals['attr:' + attr](self, st, [o], {}, node)
         # nested classes of the runtime class (self.EmptyCell, self.ExcelInPythonException)
         for cname, info in self.reg.classes.items():
             if attr in info.get('nested', {}):
